@@ -44,7 +44,7 @@ def step (st : St) (toks : List String) : St × String :=
       | none => bad
     | _, _ => bad
   | ["msnap", a, b] => match a.toNat?, b.toNat? with
-    | some a, some b => (st.set b (st.get a), "ok")   -- restore replaces the whole store
+    | some a, some b => (st.set b (restoreSnapshot (st.get b) (st.get a)), "ok")
     | _, _ => bad
   | [op, i, k] => match i.toNat?, parseStr k with
     | some i, some k =>
